@@ -153,39 +153,75 @@ Lemma py_Z2Qc_b2n (t1 t2 : bool) :
   py_Z2Qc ((if t1 then 1 else 0) + (if t2 then 1 else 0)) = qn (b2n t1 + b2n t2).
 Proof. destruct t1, t2; reflexivity. Qed.
 
-(* TrapezoidalGrid1D (also SimpsonGrid1D by inheritance): the announced count is num_points_eq with the two touch tests
-   the code makes, isclose(start, a) and end == b *)
-Theorem gen_trap_level_to_num_points bnd s e a b l :
-  TrapezoidalGrid1D_level_to_num_points_1d bnd s e a b (Z.of_nat l)
-  = Some (qn (num_points_eq bnd (py_isclose s a) (Qc_eqb e b) (npwb_of_level l))).
+(* ---- the touch tests of the version of the code in the working tree (Model/LocalRules.v: touch_tol) ---- *)
+Definition touch_lower_v (domrel : bool) (s a b : Qc) : bool := if domrel then touch_tol s a a b else py_isclose s a.
+Definition touch_upper_trap_v (domrel : bool) (e a b : Qc) : bool := if domrel then touch_tol e b a b else Qc_eqb e b.
+Definition touch_upper_cc_v (domrel : bool) (e a b : Qc) : bool := if domrel then touch_tol e b a b else py_isclose e b.
+
+(* calls of translated helper methods (whatever their names) are replaced by their values *)
+Ltac resolve_calls :=
+  repeat match goal with
+  | |- context [bindE ?h ?k] =>
+      let v := eval hnf in h in
+      match v with Some _ => change (bindE h k) with (bindE v k); cbn [bindE] end
+  end.
+
+Lemma count_form_trap bnd (t1 t2 : bool) l :
+  Some ((qn (2 ^ l) + py_Z2Qc 1)%Qc - py_Z2Qc ((if negb bnd then 1 else 0) * ((if t1 then 1 else 0) + (if t2 then 1 else 0))))%Qc
+  = Some (qn (num_points_eq bnd t1 t2 (npwb_of_level l))).
 Proof.
-  unfold TrapezoidalGrid1D_level_to_num_points_1d, num_points_eq, npwb_of_level. rewrite py_fpow_two_nat. py_step.
-  f_equal. assert (H1 : (1 <= 2 ^ l)%nat) by apply pow2_pos.
+  unfold num_points_eq, npwb_of_level. f_equal. assert (H1 : (1 <= 2 ^ l)%nat) by apply pow2_pos.
   destruct bnd; cbn [negb].
   - rewrite Z.mul_0_l. rewrite Nat.sub_0_r, qn_add. change (py_Z2Qc 0) with (Q2Qc 0). change (py_Z2Qc 1) with (qn 1). ring.
-  - rewrite Z.mul_1_l, py_Z2Qc_b2n. rewrite qn_sub by (destruct (py_isclose s a), (Qc_eqb e b); cbn; lia).
+  - rewrite Z.mul_1_l, py_Z2Qc_b2n. rewrite qn_sub by (destruct t1, t2; cbn; lia).
     rewrite (qn_add (2 ^ l) 1). change (py_Z2Qc 1) with (qn 1). reflexivity.
 Qed.
 
-(* on the dyadic lattice of the correspondence isclose is equality: then the generated count is eq_np of the hand model *)
-Corollary gen_trap_level_to_num_points_eq_np bnd x :
-  py_isclose (d_s x) (d_a x) = Qc_eqb (d_s x) (d_a x) ->
+Lemma count_form_cc (t1 t2 : bool) l :
+  Some ((qn (2 ^ l) + py_Z2Qc 1)%Qc - py_Z2Qc ((if t1 then 1 else 0) + (if t2 then 1 else 0)))%Qc
+  = Some (qn (num_points_eq false t1 t2 (npwb_of_level l))).
+Proof.
+  unfold num_points_eq, npwb_of_level. f_equal. assert (H1 : (1 <= 2 ^ l)%nat) by apply pow2_pos. cbn [negb].
+  rewrite py_Z2Qc_b2n. rewrite qn_sub by (destruct t1, t2; cbn; lia).
+  rewrite (qn_add (2 ^ l) 1). change (py_Z2Qc 1) with (qn 1). reflexivity.
+Qed.
+
+(* TrapezoidalGrid1D (also SimpsonGrid1D by inheritance): the announced count is num_points_eq with the two touch tests
+   the code makes *)
+Definition gen_trap_count_is (domrel : bool) : Prop := forall bnd s e a b l,
+  TrapezoidalGrid1D_level_to_num_points_1d bnd s e a b (Z.of_nat l)
+  = Some (qn (num_points_eq bnd (touch_lower_v domrel s a b) (touch_upper_trap_v domrel e a b) (npwb_of_level l))).
+
+Ltac trap_count_tac :=
+  unfold gen_trap_count_is; intros bnd s e a b l;
+  unfold TrapezoidalGrid1D_level_to_num_points_1d, touch_lower_v, touch_upper_trap_v, touch_tol;
+  rewrite py_fpow_two_nat; py_step; resolve_calls; py_step; exact (count_form_trap bnd _ _ l).
+
+(* ClenshawCurtisGrid1D *)
+Definition gen_cc_count_is (domrel : bool) : Prop := forall bnd s e a b l,
+  ClenshawCurtisGrid1D_level_to_num_points_1d bnd s e a b (Z.of_nat l)
+  = Some (qn (num_points_eq bnd (touch_lower_v domrel s a b) (touch_upper_cc_v domrel e a b) (npwb_of_level l))).
+
+Ltac cc_count_tac :=
+  unfold gen_cc_count_is; intros bnd s e a b l;
+  unfold ClenshawCurtisGrid1D_level_to_num_points_1d, touch_lower_v, touch_upper_cc_v, touch_tol;
+  rewrite !py_fpow_two_nat; destruct bnd; py_step; resolve_calls; py_step;
+  [ unfold num_points_eq, npwb_of_level; f_equal; rewrite Nat.sub_0_r, qn_add; change (py_Z2Qc 1) with (qn 1); reflexivity
+  | exact (count_form_cc _ _ l) ].
+
+Theorem gen_counts_version : exists domrel, gen_trap_count_is domrel /\ gen_cc_count_is domrel.
+Proof.
+  first [ exists false; split; [trap_count_tac | cc_count_tac]
+        | exists true; split; [trap_count_tac | cc_count_tac] ].
+Qed.
+
+(* where the touch tests are plain equality the generated count is eq_np of the hand model *)
+Lemma gen_trap_level_to_num_points_eq_np domrel bnd x : gen_trap_count_is domrel ->
+  touch_lower_v domrel (d_s x) (d_a x) (d_b x) = Qc_eqb (d_s x) (d_a x) ->
+  touch_upper_trap_v domrel (d_e x) (d_a x) (d_b x) = Qc_eqb (d_e x) (d_b x) ->
   TrapezoidalGrid1D_level_to_num_points_1d bnd (d_s x) (d_e x) (d_a x) (d_b x) (Z.of_nat (d_level x))
   = Some (qn (eq_np bnd x)).
-Proof. intro H. rewrite gen_trap_level_to_num_points, H. reflexivity. Qed.
-
-(* ClenshawCurtisGrid1D (after fix 5b39ecb): isclose on both sides *)
-Theorem gen_cc_level_to_num_points bnd s e a b l :
-  ClenshawCurtisGrid1D_level_to_num_points_1d bnd s e a b (Z.of_nat l)
-  = Some (qn (num_points_eq bnd (py_isclose s a) (py_isclose e b) (npwb_of_level l))).
-Proof.
-  unfold ClenshawCurtisGrid1D_level_to_num_points_1d, num_points_eq, npwb_of_level. rewrite !py_fpow_two_nat.
-  assert (H1 : (1 <= 2 ^ l)%nat) by apply pow2_pos.
-  destruct bnd; py_step; f_equal.
-  - rewrite Nat.sub_0_r, qn_add. change (py_Z2Qc 1) with (qn 1). reflexivity.
-  - rewrite py_Z2Qc_b2n. rewrite qn_sub by (destruct (py_isclose s a), (py_isclose e b); cbn; lia).
-    rewrite (qn_add (2 ^ l) 1). change (py_Z2Qc 1) with (qn 1). reflexivity.
-Qed.
+Proof. intros H H1 H2. rewrite H, H1, H2. reflexivity. Qed.
 
 Theorem gen_gauss_level_to_num_points l :
   GaussGrid1D_level_to_num_points_1d (Z.of_nat l) = Some (qn (npwb_of_level l)).
@@ -321,13 +357,38 @@ Proof.
   - intros (_ & H0 & Hx). apply Hl. split; assumption.
 Qed.
 
-Theorem gen_announced_is_returned modb bnd x : py_isclose (d_s x) (d_a x) = Qc_eqb (d_s x) (d_a x) ->
+Theorem gen_announced_is_returned domrel modb bnd x : gen_trap_count_is domrel ->
+  touch_lower_v domrel (d_s x) (d_a x) (d_b x) = Qc_eqb (d_s x) (d_a x) ->
+  touch_upper_trap_v domrel (d_e x) (d_a x) (d_b x) = Qc_eqb (d_e x) (d_b x) ->
   exists ws, gen_weights_of modb bnd x = Some ws /\
     TrapezoidalGrid1D_level_to_num_points_1d bnd (d_s x) (d_e x) (d_a x) (d_b x) (Z.of_nat (d_level x))
     = Some (qn (length ws)).
 Proof.
-  intro H. destruct (gen_weights_count modb bnd x) as (ws & Hw & Hl). exists ws. split; [exact Hw|].
-  rewrite Hl. apply gen_trap_level_to_num_points_eq_np. exact H.
+  intros Hc H1 H2. destruct (gen_weights_count modb bnd x) as (ws & Hw & Hl). exists ws. split; [exact Hw|].
+  rewrite Hl. apply (gen_trap_level_to_num_points_eq_np domrel); assumption.
 Qed.
 End AnyVersion.
 
+
+(* ---- the two versions of the touch test ---- *)
+(* a sub-box that starts AT the boundary touches it in both versions *)
+Lemma touch_lower_v_refl domrel a b : touch_lower_v domrel a a b = true.
+Proof.
+  destruct domrel; cbn [touch_lower_v]; [|apply py_isclose_refl].
+  unfold touch_tol. apply Qc_leb_le. replace (a - a)%Qc with (Q2Qc 0) by ring.
+  assert (E0 : Qc_abs (Q2Qc 0) = Q2Qc 0) by reflexivity. rewrite E0.
+  assert (Hx : (Q2Qc 0 <= Qc_abs (b - a))%Qc).
+  { unfold Qc_abs. destruct (Qc_leb 0 (b - a)) eqn:E; [apply Qc_leb_le; exact E|].
+    assert (N : ~ (0 <= b - a)%Qc) by (intro H; apply Qc_leb_le in H; congruence).
+    apply Qcnot_le_lt in N. qc_order. }
+  revert Hx. generalize (Qc_abs (b - a)). intros y Hy. qc_order.
+Qed.
+
+(* the code as it is counts an INTERIOR sub-box of the domain [2^34, 2^34+1] as touching the lower boundary; with the
+   domain-relative test it does not *)
+Theorem isclose_misfires_far_domain :
+  exists s a b : Qc, (a < s)%Qc /\ (s < b)%Qc /\ touch_lower_v false s a b = true /\ touch_lower_v true s a b = false.
+Proof.
+  exists (Q2Qc (34359738369 # 2)), (Q2Qc (17179869184 # 1)), (Q2Qc (17179869185 # 1)).
+  repeat split; vm_compute; reflexivity.
+Qed.
